@@ -17,7 +17,7 @@ use automerge::{
 use serde_json::json;
 use unicode_segmentation::UnicodeSegmentation;
 
-const HEADER: &str = "From AM Require Import Base.Prelude Base.Order Crdt.Types Crdt.Interp Crdt.Local Crdt.Migrate Exec.EditExec Exec.ReconExec.\nLocal Open Scope N_scope.\n";
+const HEADER: &str = "From AM Require Import Base.Prelude Base.Order Crdt.Types Crdt.Interp Crdt.Local Crdt.Migrate Crdt.Update Exec.EditExec Exec.ReconExec.\nLocal Open Scope N_scope.\n";
 
 // ------------------------------------------------------------------ shared helpers
 pub fn enc_width(enc: TextEncoding, s: &str) -> usize {
@@ -591,6 +591,826 @@ fn mig_case(rng: &mut Rng, rep: &mut Report, cw: &mut CaseWriter, grp: &mut Grou
     rep.model_cases += 1;
 }
 
+// ------------------------------------------------------------------ C27: reconciliation and bulk construction
+use automerge::hydrate;
+use automerge::marks::{MarkSet, UpdateSpansConfig};
+use automerge::{legacy, Span};
+use std::collections::HashMap;
+
+const GRAPHEMES: [&str; 12] = ["a", "b", "c", " ", "\n", "\u{e9}", "\u{6f22}", "\u{1F600}", "e\u{301}", "\u{1F468}\u{200D}\u{1F469}", "z", "q\u{308}\u{323}"];
+
+fn rand_text(rng: &mut Rng, max: u64) -> String {
+    let n = rng.below(max + 1);
+    (0..n).map(|_| *rng.pick(&GRAPHEMES)).collect::<Vec<_>>().concat()
+}
+
+/// a text near `old`: runs deleted, inserted, replaced, duplicated (grapheme-wise), or something unrelated
+fn mutate_text(rng: &mut Rng, old: &str) -> String {
+    let mut g: Vec<String> = old.graphemes(true).map(|x| x.to_string()).collect();
+    match rng.below(10) {
+        0 => return String::new(),
+        1 => return rand_text(rng, 10),
+        2 => return old.to_string(),
+        _ => {}
+    }
+    let edits = rng.range(1, 4);
+    for _ in 0..edits {
+        let pos = rng.below(g.len() as u64 + 1) as usize;
+        match rng.below(4) {
+            0 if pos < g.len() => {
+                let k = rng.range(1, 3).min((g.len() - pos) as u64) as usize;
+                g.drain(pos..pos + k);
+            }
+            1 => {
+                let k = rng.range(1, 3);
+                for _ in 0..k {
+                    g.insert(pos, rng.pick(&GRAPHEMES).to_string());
+                }
+            }
+            2 if pos < g.len() => g[pos] = rng.pick(&GRAPHEMES).to_string(),
+            _ => {
+                if pos < g.len() {
+                    let x = g[pos].clone();
+                    g.insert(pos, x);
+                }
+            }
+        }
+    }
+    g.concat()
+}
+
+#[derive(Debug, Clone)]
+enum Hook {
+    Equal(usize, usize, usize),
+    Delete(usize, usize, usize),
+    Insert(usize, usize, usize),
+}
+impl Hook {
+    fn coq(&self) -> String {
+        match self {
+            Hook::Equal(a, b, c) => format!("(HEqual {}%nat {}%nat {}%nat)", a, b, c),
+            Hook::Delete(a, b, c) => format!("(HDelete {}%nat {}%nat {}%nat)", a, b, c),
+            Hook::Insert(a, b, c) => format!("(HInsert {}%nat {}%nat {}%nat)", a, b, c),
+        }
+    }
+}
+
+/// the edit script a change applied to a text whose visible elements were `old` (element id, content): the ops
+/// are replayed on the element sequence (a delete hides its element, an insert lands right after its reference
+/// element), then old and the resulting sequence are aligned: kept runs, deleted runs, inserted runs
+fn derive_script(old: &[((u64, Vec<u8>), String)], c: &Change) -> Result<(Vec<Hook>, Vec<String>), String> {
+    let e = c.decode();
+    let start = e.start_op.get();
+    let actor = e.actor_id.to_bytes().to_vec();
+    // (id, content, index in old, hidden)
+    let mut cur: Vec<((u64, Vec<u8>), String, Option<usize>, bool)> = old.iter().enumerate().map(|(i, x)| (x.0.clone(), x.1.clone(), Some(i), false)).collect();
+    for (i, op) in e.operations.iter().enumerate() {
+        match (&op.action, &op.key, op.insert) {
+            (legacy::OpType::Delete, legacy::Key::Seq(legacy::ElementId::Id(id)), false) => {
+                let k = (id.counter(), id.actor().to_bytes().to_vec());
+                match cur.iter_mut().find(|x| x.0 == k) {
+                    Some(x) if !x.3 => x.3 = true,
+                    Some(_) => return Err(format!("op {} deletes an element twice", i)),
+                    None => return Err(format!("op {} deletes an element that was not visible", i)),
+                }
+            }
+            (legacy::OpType::Put(ScalarValue::Str(sv)), legacy::Key::Seq(r), true) => {
+                let at = match r {
+                    legacy::ElementId::Head => 0,
+                    legacy::ElementId::Id(id) => {
+                        let k = (id.counter(), id.actor().to_bytes().to_vec());
+                        match cur.iter().position(|x| x.0 == k) {
+                            Some(p) => p + 1,
+                            None => return Err(format!("op {} inserts after an element that was not visible", i)),
+                        }
+                    }
+                };
+                cur.insert(at, ((start + i as u64, actor.clone()), sv.to_string(), None, false));
+            }
+            other => return Err(format!("op {} of the update_text change is neither a delete nor a string insert: {:?}", i, other.0)),
+        }
+    }
+    let mut hooks: Vec<Hook> = vec![];
+    let mut new: Vec<String> = vec![];
+    let mut oi = 0usize;
+    let push = |hooks: &mut Vec<Hook>, h: Hook| {
+        // coalesce runs of the same kind
+        match (hooks.last_mut(), &h) {
+            (Some(Hook::Equal(_, _, n)), Hook::Equal(_, _, m)) => *n += m,
+            (Some(Hook::Delete(_, n, _)), Hook::Delete(_, m, _)) => *n += m,
+            (Some(Hook::Insert(_, _, n)), Hook::Insert(_, _, m)) => *n += m,
+            _ => hooks.push(h),
+        }
+    };
+    for x in &cur {
+        match (x.2, x.3) {
+            (Some(p), hidden) => {
+                if p != oi {
+                    return Err(format!("old element {} appears out of order (expected {})", p, oi));
+                }
+                if hidden {
+                    push(&mut hooks, Hook::Delete(oi, 1, new.len()));
+                } else {
+                    push(&mut hooks, Hook::Equal(oi, new.len(), 1));
+                    new.push(x.1.clone());
+                }
+                oi += 1;
+            }
+            (None, false) => {
+                push(&mut hooks, Hook::Insert(oi, new.len(), 1));
+                new.push(x.1.clone());
+            }
+            (None, true) => return Err("an element inserted by the change was deleted by it".to_string()),
+        }
+    }
+    if oi != old.len() {
+        return Err("old elements lost".to_string());
+    }
+    Ok((hooks, new))
+}
+
+fn coq_units(us: &[String]) -> String {
+    coq_list(&us.iter().map(|u| coq_str(u)).collect::<Vec<_>>())
+}
+
+fn upd_text_case(rng: &mut Rng, rep: &mut Report, cases: &mut Vec<(String, serde_json::Value)>, pi: usize, enc: TextEncoding) {
+    let mut doc = AutoCommit::new_with_encoding(enc).with_actor(gen::actor(rng, 0));
+    let t = doc.put_object(ROOT, "t", ObjType::Text).unwrap();
+    let mut log = vec![format!("encoding {}", enc_name(enc))];
+    // some history first (tombstones, several insert runs)
+    let first = rand_text(rng, 8);
+    doc.splice_text(&t, 0, 0, &first).unwrap();
+    log.push(format!("splice_text 0 0 {:?}", first));
+    if rng.chance(1, 2) {
+        let cur = doc.text(&t).unwrap();
+        let nxt = mutate_text(rng, &cur);
+        let _ = doc.update_text(&t, &nxt);
+        log.push(format!("update_text {:?}", nxt));
+    }
+    doc.commit();
+    let old = doc.text(&t).unwrap();
+    let new = mutate_text(rng, &old);
+    log.push(format!("old {:?} new {:?}", old, new));
+    let replay = json!({"stream": "update_text", "program": pi, "encoding": enc_name(enc), "log": log});
+    // the visible elements before
+    let before = match read_obj(&doc, &t, enc) {
+        Ok(Some(o)) => o,
+        _ => {
+            rep.fail(&["C27"], "recon|update_text|read-failed", "cannot read the text before the update", replay);
+            return;
+        }
+    };
+    let old_elems: Vec<((u64, Vec<u8>), String)> = before
+        .regs
+        .iter()
+        .map(|(_, vals)| {
+            let (v, id) = vals.last().unwrap();
+            (exid_key(id), is_str(v).unwrap_or_else(|| "\u{fffc}".into()))
+        })
+        .collect();
+    rep.count("update_text:calls");
+    rep.count(&format!("update_text:encoding:{}", enc_name(enc)));
+    let r = guard(|| doc.update_text(&t, &new));
+    match r {
+        Ok(Ok(())) => {}
+        Ok(Err(e)) => {
+            rep.fail(&["C27"], "recon|update_text|error", &format!("update_text failed: {}", e), replay);
+            return;
+        }
+        Err(p) => {
+            rep.fail(&["C27", "C37"], &format!("panic|recon|update_text|{}", p.signature()), &format!("update_text panicked: {} at {}", p.message, p.location), replay);
+            return;
+        }
+    }
+    let got = doc.text(&t).unwrap_or_default();
+    if got != new {
+        rep.fail(&["C27"], &format!("recon|update_text|not-reached|{}", enc_name(enc)), &format!("after update_text the text is {:?}, expected {:?} (was {:?})", got, new, old), replay.clone());
+    }
+    if doc.length(&t) != enc_width(enc, &new) && enc != TextEncoding::GraphemeCluster {
+        rep.fail(&["C27", "C24"], "recon|update_text|length", "length differs from the width of the new text", replay.clone());
+    }
+    let h = doc.commit();
+    let bytes = doc.save();
+    match guard(|| load_plain(&bytes, enc).map(|l| l.text(&t).unwrap_or_default())) {
+        Ok(Ok(s)) if s == new => {}
+        Ok(Ok(s)) => rep.fail(&["C27", "C11"], "recon|update_text|reload-differs", &format!("reloaded text {:?}", s), replay.clone()),
+        Ok(Err(e)) => rep.fail(&["C27", "C11"], "recon|update_text|reload-failed", &e, replay.clone()),
+        Err(p) => rep.fail(&["C27", "C11"], &format!("panic|recon|update_text|reload|{}", p.signature()), &p.message, replay.clone()),
+    }
+    rep.case(if old != new { Some(fnv(format!("{:?}{:?}{}", old, new, enc_name(enc)).as_bytes())) } else { None });
+    if enc == TextEncoding::GraphemeCluster {
+        return;
+    }
+    // the script the implementation followed, recovered from the committed ops
+    let (hooks, new_units) = match h.and_then(|h| doc.get_change_by_hash(&h)) {
+        Some(c) => match derive_script(&old_elems, &c) {
+            Ok(x) => x,
+            Err(e) => {
+                rep.fail(&["C27"], "recon|update_text|ops-do-not-tile", &format!("the ops of the update_text change are not an in-order edit script: {}", e), replay);
+                return;
+            }
+        },
+        None => {
+            // no op: old == new
+            let units: Vec<String> = old_elems.iter().map(|x| x.1.clone()).collect();
+            (if units.is_empty() { vec![] } else { vec![Hook::Equal(0, 0, units.len())] }, units)
+        }
+    };
+    rep.add("update_text:hooks", hooks.len() as u64);
+    let old_units: Vec<String> = old_elems.iter().map(|x| x.1.clone()).collect();
+    let term = format!(
+        "chk_script {} {} {} {} {}",
+        coq_enc(enc),
+        coq_units(&old_units),
+        coq_units(&new_units),
+        coq_list(&hooks.iter().map(|h| h.coq()).collect::<Vec<_>>()),
+        coq_str(&got)
+    );
+    cases.push((term, json!({"kind": "update_text", "props": ["C27"], "program": pi, "log": replay["log"]})));
+    rep.model_cases += 1;
+}
+
+// ---- hydrate values
+fn hscalar(rng: &mut Rng) -> ScalarValue {
+    loop {
+        let v = gen::scalar(rng);
+        if let ScalarValue::F64(f) = &v {
+            if f.is_nan() {
+                continue;
+            }
+        }
+        return v;
+    }
+}
+
+fn gen_hval(rng: &mut Rng, depth: usize, enc: TextEncoding, object_only: bool) -> hydrate::Value {
+    let k = if depth == 0 { if object_only { 6 } else { 0 } } else { rng.below(10) };
+    match k {
+        0..=3 if !object_only => hydrate::Value::Scalar(hscalar(rng)),
+        4 | 5 | 0 | 1 => {
+            let n = rng.below(4) as usize;
+            let mut m: HashMap<String, hydrate::Value> = HashMap::new();
+            for _ in 0..n {
+                m.insert(rng.pick(&gen::KEYS).to_string(), gen_hval(rng, depth.saturating_sub(1), enc, false));
+            }
+            hydrate::Value::Map(hydrate::Map::from(m))
+        }
+        6 | 7 | 2 => {
+            let n = rng.below(5) as usize;
+            let v: Vec<hydrate::Value> = (0..n).map(|_| gen_hval(rng, depth.saturating_sub(1), enc, false)).collect();
+            hydrate::Value::List(hydrate::List::from(v))
+        }
+        _ => hydrate::Value::Text(hydrate::Text::new(enc, rand_text(rng, 6))),
+    }
+}
+
+/// a value near `v`: maps lose / gain / change keys, lists grow / shrink / change items, texts are edited;
+/// nested objects of the same type are mutated in place (so update_object recurses)
+fn mutate_hval(rng: &mut Rng, v: &hydrate::Value, depth: usize, enc: TextEncoding) -> hydrate::Value {
+    match v {
+        hydrate::Value::Map(m) => {
+            let mut out: HashMap<String, hydrate::Value> = HashMap::new();
+            let mut keys: Vec<(&String, &hydrate::MapValue)> = m.iter().collect();
+            keys.sort_by(|a, b| a.0.cmp(b.0));
+            for (k, mv) in keys {
+                match rng.below(6) {
+                    0 => {}
+                    1 => {
+                        out.insert(k.clone(), gen_hval(rng, depth.saturating_sub(1), enc, false));
+                    }
+                    2 => {
+                        out.insert(k.clone(), mv.value.clone());
+                    }
+                    _ => {
+                        out.insert(k.clone(), mutate_hval(rng, &mv.value, depth.saturating_sub(1), enc));
+                    }
+                }
+            }
+            for _ in 0..rng.below(3) {
+                out.insert(rng.pick(&gen::KEYS).to_string(), gen_hval(rng, depth.saturating_sub(1), enc, false));
+            }
+            hydrate::Value::Map(hydrate::Map::from(out))
+        }
+        hydrate::Value::List(l) => {
+            let mut out: Vec<hydrate::Value> = vec![];
+            for lv in l.iter() {
+                match rng.below(5) {
+                    0 => out.push(gen_hval(rng, depth.saturating_sub(1), enc, false)),
+                    1 => out.push(lv.value.clone()),
+                    _ => out.push(mutate_hval(rng, &lv.value, depth.saturating_sub(1), enc)),
+                }
+            }
+            match rng.below(5) {
+                0 | 1 => {
+                    let keep = rng.below(out.len() as u64 + 1) as usize;
+                    out.truncate(keep);
+                }
+                2 | 3 => {
+                    for _ in 0..rng.range(1, 3) {
+                        out.push(gen_hval(rng, depth.saturating_sub(1), enc, false));
+                    }
+                }
+                _ => {
+                    rng.shuffle(&mut out);
+                }
+            }
+            hydrate::Value::List(hydrate::List::from(out))
+        }
+        hydrate::Value::Text(t) => {
+            let s: String = t.into();
+            hydrate::Value::Text(hydrate::Text::new(enc, mutate_text(rng, &s)))
+        }
+        hydrate::Value::Scalar(_) => gen_hval(rng, depth.saturating_sub(1), enc, false),
+    }
+}
+
+/// canonical rendering without conflict flags, floats by bit pattern, map keys sorted
+fn render_h(v: &hydrate::Value) -> String {
+    match v {
+        hydrate::Value::Scalar(s) => match s {
+            ScalarValue::F64(f) => format!("f64:{}", f.to_bits()),
+            other => format!("{:?}", other),
+        },
+        hydrate::Value::Map(m) => {
+            let mut items: Vec<(&String, String)> = m.iter().map(|(k, mv)| (k, render_h(&mv.value))).collect();
+            items.sort();
+            format!("{{{}}}", items.iter().map(|(k, v)| format!("{:?}:{}", k, v)).collect::<Vec<_>>().join(","))
+        }
+        hydrate::Value::List(l) => format!("[{}]", l.iter().map(|lv| render_h(&lv.value)).collect::<Vec<_>>().join(",")),
+        hydrate::Value::Text(t) => {
+            let s: String = t.into();
+            format!("T{:?}", s)
+        }
+    }
+}
+
+/// the same value built call by call
+fn build_value<T: Transactable>(t: &mut T, parent: &ObjId, prop: automerge::Prop, insert: bool, v: &hydrate::Value) -> Result<(), automerge::AutomergeError> {
+    let make = |t: &mut T, ty: ObjType| -> Result<ObjId, automerge::AutomergeError> {
+        match (&prop, insert) {
+            (automerge::Prop::Seq(i), true) => t.insert_object(parent, *i, ty),
+            _ => t.put_object(parent, prop.clone(), ty),
+        }
+    };
+    match v {
+        hydrate::Value::Scalar(s) => match (&prop, insert) {
+            (automerge::Prop::Seq(i), true) => t.insert(parent, *i, s.clone()),
+            _ => t.put(parent, prop.clone(), s.clone()),
+        },
+        hydrate::Value::Map(m) => {
+            let id = make(t, ObjType::Map)?;
+            build_map(t, &id, m)
+        }
+        hydrate::Value::List(l) => {
+            let id = make(t, ObjType::List)?;
+            for (i, lv) in l.iter().enumerate() {
+                build_value(t, &id, automerge::Prop::Seq(i), true, &lv.value)?;
+            }
+            Ok(())
+        }
+        hydrate::Value::Text(x) => {
+            let id = make(t, ObjType::Text)?;
+            let s: String = x.into();
+            t.splice_text(&id, 0, 0, &s)
+        }
+    }
+}
+
+fn build_map<T: Transactable>(t: &mut T, id: &ObjId, m: &hydrate::Map) -> Result<(), automerge::AutomergeError> {
+    let mut keys: Vec<(&String, &hydrate::MapValue)> = m.iter().collect();
+    keys.sort_by(|a, b| a.0.cmp(b.0));
+    for (k, mv) in keys {
+        build_value(t, id, automerge::Prop::Map(k.clone()), false, &mv.value)?;
+    }
+    Ok(())
+}
+
+fn hydrate_of(doc: &Automerge) -> String {
+    render_h(&doc.hydrate(None))
+}
+
+fn reload_hydrate(doc: &Automerge, enc: TextEncoding) -> Result<String, String> {
+    let bytes = doc.save();
+    load_plain(&bytes, enc).map(|l| hydrate_of(&l))
+}
+
+fn as_map(v: &hydrate::Value) -> &hydrate::Map {
+    match v {
+        hydrate::Value::Map(m) => m,
+        _ => unreachable!(),
+    }
+}
+
+fn upd_object_case(rng: &mut Rng, rep: &mut Report, pi: usize, enc: TextEncoding, thorough: bool) {
+    let depth = if thorough { 4 } else { 3 };
+    let a = loop {
+        let v = gen_hval(rng, depth, enc, true);
+        if matches!(v, hydrate::Value::Map(_)) {
+            break v;
+        }
+    };
+    let b = mutate_hval(rng, &a, depth, enc);
+    let mut doc = AutoCommit::new_with_encoding(enc).with_actor(gen::actor(rng, 0));
+    let replay = json!({"stream": "update_object", "program": pi, "encoding": enc_name(enc), "from": render_h(&a), "to": render_h(&b)});
+    if let Err(e) = build_map(&mut doc, &ROOT, as_map(&a)) {
+        rep.fail(&["C27"], "recon|update_object|setup", &format!("{}", e), replay);
+        return;
+    }
+    doc.commit();
+    // sometimes a second replica wrote the same keys concurrently (conflicted registers)
+    let conflicts = rng.chance(1, 3);
+    if conflicts {
+        let mut other = doc.fork().with_actor(gen::actor(rng, 1));
+        let keys: Vec<String> = doc.keys(ROOT).collect();
+        for k in keys.iter().take(2) {
+            let _ = other.put(ROOT, k.as_str(), hscalar(rng));
+            let _ = doc.put(ROOT, k.as_str(), hscalar(rng));
+        }
+        other.commit();
+        doc.commit();
+        let _ = doc.merge(&mut other);
+        rep.count("update_object:with_conflicts");
+    }
+    rep.count("update_object:calls");
+    let shape = match (&a, &b) {
+        (hydrate::Value::Map(x), hydrate::Value::Map(y)) => {
+            let (nx, ny) = (x.iter().count(), y.iter().count());
+            if ny > nx { "map-grows" } else if ny < nx { "map-shrinks" } else { "map-same-size" }
+        }
+        _ => "other",
+    };
+    rep.count(&format!("update_object:{}", shape));
+    match guard(|| doc.update_object(ROOT, &b)) {
+        Ok(Ok(())) => {}
+        Ok(Err(e)) => {
+            rep.fail(&["C27"], "recon|update_object|error", &format!("update_object failed: {}", e), replay);
+            return;
+        }
+        Err(p) => {
+            rep.fail(&["C27", "C37"], &format!("panic|recon|update_object|{}", p.signature()), &format!("update_object panicked: {} at {}", p.message, p.location), replay);
+            return;
+        }
+    }
+    doc.commit();
+    let got = hydrate_of(doc.document());
+    let want = render_h(&b);
+    if got != want {
+        rep.fail(&["C27"], &format!("recon|update_object|not-reached|{}", shape), &format!("after update_object the document is {} , expected {}", got, want), replay.clone());
+    }
+    match guard(|| reload_hydrate(doc.document(), enc)) {
+        Ok(Ok(s)) if s == got => {}
+        Ok(Ok(s)) => rep.fail(&["C27", "C11"], "recon|update_object|reload-differs", &format!("reloaded: {}", s), replay.clone()),
+        Ok(Err(e)) => rep.fail(&["C27", "C11"], "recon|update_object|reload-failed", &e, replay.clone()),
+        Err(p) => rep.fail(&["C27", "C11"], &format!("panic|recon|update_object|reload|{}", p.signature()), &p.message, replay.clone()),
+    }
+    // a nested list on its own: grow / shrink / reorder through update_object(list, ..)
+    {
+        let items: Vec<hydrate::Value> = (0..rng.below(7)).map(|_| gen_hval(rng, 1, enc, false)).collect();
+        let l0 = hydrate::Value::List(hydrate::List::from(items));
+        let l1 = mutate_hval(rng, &l0, 2, enc);
+        let mut d2 = AutoCommit::new_with_encoding(enc).with_actor(gen::actor(rng, 2));
+        if build_value(&mut d2, &ROOT, automerge::Prop::Map("l".into()), false, &l0).is_ok() {
+            let lid = d2.get(ROOT, "l").unwrap().unwrap().1;
+            let (n0, n1) = match (&l0, &l1) {
+                (hydrate::Value::List(x), hydrate::Value::List(y)) => (x.len(), y.len()),
+                _ => (0, 0),
+            };
+            let shape = if n1 > n0 { "list-grows" } else if n1 < n0 { "list-shrinks" } else { "list-same-length" };
+            rep.count(&format!("update_object:{}", shape));
+            let rp = json!({"stream": "update_object", "program": pi, "from": render_h(&l0), "to": render_h(&l1)});
+            match guard(|| d2.update_object(&lid, &l1)) {
+                Ok(Ok(())) => {
+                    let got = render_h(&d2.document().hydrate(None));
+                    let want = format!("{{\"l\":{}}}", render_h(&l1));
+                    if got != want {
+                        rep.fail(&["C27"], &format!("recon|update_object|not-reached|{}", shape), &format!("after update_object(list) the document is {} , expected {}", got, want), rp);
+                    }
+                }
+                Ok(Err(e)) => rep.fail(&["C27"], "recon|update_object|error", &format!("update_object(list) failed: {}", e), rp),
+                Err(p) => rep.fail(&["C27", "C37"], &format!("panic|recon|update_object|{}", p.signature()), &p.message, rp),
+            }
+        }
+    }
+    rep.case(if render_h(&a) != want { Some(fnv(format!("{}{}", render_h(&a), want).as_bytes())) } else { None });
+}
+
+fn bulk_case(rng: &mut Rng, rep: &mut Report, pi: usize, enc: TextEncoding, thorough: bool) {
+    let depth = if thorough { 4 } else { 3 };
+    let which = rng.below(5);
+    let names = ["init_from_hydrate", "init_root_from_hydrate", "batch_create_object:map-key", "batch_create_object:list", "splice-nested"];
+    let name = names[which as usize];
+    rep.count(&format!("bulk:{}", name));
+    let actor = gen::actor(rng, 0);
+    let mut bulk = Automerge::new_with_encoding(enc).with_actor(actor.clone());
+    let mut step = Automerge::new_with_encoding(enc).with_actor(actor);
+    let v = loop {
+        let v = gen_hval(rng, depth, enc, true);
+        if which >= 2 || matches!(v, hydrate::Value::Map(_)) {
+            break v;
+        }
+    };
+    let replay = json!({"stream": "bulk", "api": name, "program": pi, "encoding": enc_name(enc), "value": render_h(&v)});
+    let want: String;
+    let r: Result<Result<(), String>, PanicInfo> = match which {
+        0 => {
+            want = render_h(&v);
+            guard(|| {
+                bulk.init_from_hydrate(as_map(&v)).map_err(|e| format!("{}", e))?;
+                let mut tx = step.transaction();
+                build_map(&mut tx, &ROOT, as_map(&v)).map_err(|e| format!("stepwise: {}", e))?;
+                tx.commit();
+                Ok(())
+            })
+        }
+        1 => {
+            want = render_h(&v);
+            guard(|| {
+                let mut tx = bulk.transaction();
+                tx.init_root_from_hydrate(as_map(&v)).map_err(|e| format!("{}", e))?;
+                tx.commit();
+                let mut tx = step.transaction();
+                build_map(&mut tx, &ROOT, as_map(&v)).map_err(|e| format!("stepwise: {}", e))?;
+                tx.commit();
+                Ok(())
+            })
+        }
+        2 => {
+            want = format!("{{\"k\":{}}}", render_h(&v));
+            let overwrite = rng.chance(1, 2);
+            guard(|| {
+                for d in [&mut bulk, &mut step] {
+                    if overwrite {
+                        let mut tx = d.transaction();
+                        tx.put(ROOT, "k", 1).map_err(|e| format!("{}", e))?;
+                        tx.commit();
+                    }
+                }
+                let mut tx = bulk.transaction();
+                tx.batch_create_object(ROOT, "k", &v, false).map_err(|e| format!("{}", e))?;
+                tx.commit();
+                let mut tx = step.transaction();
+                build_value(&mut tx, &ROOT, automerge::Prop::Map("k".into()), false, &v).map_err(|e| format!("stepwise: {}", e))?;
+                tx.commit();
+                Ok(())
+            })
+        }
+        3 => {
+            let n = rng.range(1, 3) as usize;
+            let idx = rng.below(n as u64 + 1) as usize;
+            let insert = idx == n || rng.chance(1, 2);
+            let mut items: Vec<String> = (0..n).map(|i| format!("Int({})", i)).collect();
+            if insert {
+                items.insert(idx, render_h(&v));
+            } else {
+                items[idx] = render_h(&v);
+            }
+            want = format!("{{\"l\":[{}]}}", items.join(","));
+            guard(|| {
+                let mut lids = vec![];
+                for d in [&mut bulk, &mut step] {
+                    let mut tx = d.transaction();
+                    let l = tx.put_object(ROOT, "l", ObjType::List).map_err(|e| format!("{}", e))?;
+                    for i in 0..n {
+                        tx.insert(&l, i, i as i64).map_err(|e| format!("{}", e))?;
+                    }
+                    tx.commit();
+                    lids.push(l);
+                }
+                let mut tx = bulk.transaction();
+                tx.batch_create_object(&lids[0], idx, &v, insert).map_err(|e| format!("{}", e))?;
+                tx.commit();
+                let mut tx = step.transaction();
+                build_value(&mut tx, &lids[1], automerge::Prop::Seq(idx), insert, &v).map_err(|e| format!("stepwise: {}", e))?;
+                tx.commit();
+                Ok(())
+            })
+        }
+        _ => {
+            let n = rng.range(0, 3) as usize;
+            let pos = rng.below(n as u64 + 1) as usize;
+            let del = rng.below((n - pos) as u64 + 1) as usize;
+            let vals: Vec<hydrate::Value> = (0..rng.range(1, 3)).map(|_| gen_hval(rng, depth - 1, enc, false)).collect();
+            let mut items: Vec<String> = (0..n).map(|i| format!("Int({})", i)).collect();
+            items.splice(pos..pos + del, vals.iter().map(render_h));
+            want = format!("{{\"l\":[{}]}}", items.join(","));
+            guard(|| {
+                let mut lids = vec![];
+                for d in [&mut bulk, &mut step] {
+                    let mut tx = d.transaction();
+                    let l = tx.put_object(ROOT, "l", ObjType::List).map_err(|e| format!("{}", e))?;
+                    for i in 0..n {
+                        tx.insert(&l, i, i as i64).map_err(|e| format!("{}", e))?;
+                    }
+                    tx.commit();
+                    lids.push(l);
+                }
+                let mut tx = bulk.transaction();
+                tx.splice(&lids[0], pos, del as isize, vals.iter().cloned()).map_err(|e| format!("{}", e))?;
+                tx.commit();
+                let mut tx = step.transaction();
+                for _ in 0..del {
+                    tx.delete(&lids[1], pos).map_err(|e| format!("stepwise: {}", e))?;
+                }
+                for (k, x) in vals.iter().enumerate() {
+                    build_value(&mut tx, &lids[1], automerge::Prop::Seq(pos + k), true, x).map_err(|e| format!("stepwise: {}", e))?;
+                }
+                tx.commit();
+                Ok(())
+            })
+        }
+    };
+    match r {
+        Ok(Ok(())) => {}
+        Ok(Err(e)) => {
+            rep.fail(&["C27"], &format!("recon|bulk|error|{}", name), &e, replay);
+            return;
+        }
+        Err(p) => {
+            rep.fail(&["C27", "C37"], &format!("panic|recon|bulk|{}|{}", name, p.signature()), &format!("{} panicked: {} at {}", name, p.message, p.location), replay);
+            return;
+        }
+    }
+    let hb = hydrate_of(&bulk);
+    let hs = hydrate_of(&step);
+    if hb != want {
+        rep.fail(&["C27"], &format!("recon|bulk|not-the-value|{}", name), &format!("{} created {} , expected {}", name, hb, want), replay.clone());
+    }
+    if hb != hs {
+        rep.fail(&["C27"], &format!("recon|bulk|differs-from-stepwise|{}", name), &format!("{} created {} , call by call gives {}", name, hb, hs), replay.clone());
+    }
+    match guard(|| (reload_hydrate(&bulk, enc), reload_hydrate(&step, enc))) {
+        Ok((Ok(x), Ok(y))) => {
+            if x != hb || y != hs {
+                rep.fail(&["C27", "C11"], &format!("recon|bulk|reload-differs|{}", name), &format!("after save/load: bulk {} stepwise {}", x, y), replay.clone());
+            }
+        }
+        Ok((x, y)) => rep.fail(&["C27", "C11"], &format!("recon|bulk|reload-failed|{}", name), &format!("{:?} {:?}", x.err(), y.err()), replay.clone()),
+        Err(p) => rep.fail(&["C27", "C11"], &format!("panic|recon|bulk|reload|{}", p.signature()), &p.message, replay.clone()),
+    }
+    rep.case(Some(fnv(format!("{}{}", name, want).as_bytes())));
+}
+
+// ---- update_spans
+#[derive(Clone, Debug, PartialEq)]
+enum NSpan {
+    Text(String, Vec<(String, String)>),
+    Block(String),
+}
+
+fn norm_spans<I: IntoIterator<Item = Span>>(spans: I) -> Vec<NSpan> {
+    let mut out: Vec<NSpan> = vec![];
+    for s in spans {
+        match s {
+            Span::Text { text, marks } => {
+                if text.is_empty() {
+                    continue;
+                }
+                let mut ms: Vec<(String, String)> = marks.map(|m| m.iter().map(|(k, v)| (k.to_string(), format!("{:?}", v))).collect()).unwrap_or_default();
+                ms.sort();
+                if let Some(NSpan::Text(t, m0)) = out.last_mut() {
+                    if *m0 == ms {
+                        t.push_str(&text);
+                        continue;
+                    }
+                }
+                out.push(NSpan::Text(text, ms));
+            }
+            Span::Block(m) => out.push(NSpan::Block(render_h(&hydrate::Value::Map(m)))),
+        }
+    }
+    out
+}
+
+fn gen_spans(rng: &mut Rng, enc: TextEncoding, blocks: bool) -> Vec<Span> {
+    let n = rng.below(6);
+    let mut out = vec![];
+    for _ in 0..n {
+        if blocks && rng.chance(1, 4) {
+            let mut m: HashMap<String, hydrate::Value> = HashMap::new();
+            m.insert("type".into(), hydrate::Value::Scalar(ScalarValue::Str((*rng.pick(&["p", "h1", "li"])).into())));
+            if rng.chance(1, 2) {
+                m.insert("parents".into(), hydrate::Value::List(hydrate::List::from(vec![hydrate::Value::Scalar(ScalarValue::Str("ul".into()))])));
+            }
+            let _ = enc;
+            out.push(Span::Block(hydrate::Map::from(m)));
+        } else {
+            let text = loop {
+                let t = rand_text(rng, 4);
+                if !t.is_empty() {
+                    break t;
+                }
+            };
+            let marks = match rng.below(4) {
+                0 => Some(std::sync::Arc::new(MarkSet::from_iter(vec![("bold".to_string(), ScalarValue::Boolean(true))]))),
+                1 => Some(std::sync::Arc::new(MarkSet::from_iter(vec![("link".to_string(), ScalarValue::Str((*rng.pick(&["u", "v"])).into()))]))),
+                2 => Some(std::sync::Arc::new(MarkSet::from_iter(vec![("bold".to_string(), ScalarValue::Boolean(true)), ("i".to_string(), ScalarValue::Int(1))]))),
+                _ => None,
+            };
+            out.push(Span::Text { text, marks });
+        }
+    }
+    out
+}
+
+/// two hand-built inputs (the smallest members of the two classes in which update_spans misses its target)
+fn spans_probes(rep: &mut Report) {
+    // A: a grapheme cluster of two code points in the old text is deleted with delete(obj, idx): one element only
+    {
+        let mut doc = AutoCommit::new_with_encoding(TextEncoding::UnicodeCodePoint).with_actor(ActorId::from(vec![1u8]));
+        let t = doc.put_object(ROOT, "t", ObjType::Text).unwrap();
+        doc.splice_text(&t, 0, 0, "e\u{301}").unwrap();
+        let r = guard(|| doc.update_spans(&t, UpdateSpansConfig::default(), Vec::<Span>::new()));
+        let got = doc.text(&t).unwrap_or_default();
+        rep.count("update_spans:probe");
+        if !matches!(r, Ok(Ok(()))) || !got.is_empty() {
+            rep.fail(&["C27"], "recon|update_spans|not-reached|old-text-has-multi-codepoint-grapheme",
+                &format!("text \"e\\u{{301}}\" (code point encoding); update_spans(t, default, []) leaves {:?} (result {:?})", got, r.map(|x| x.map_err(|e| e.to_string())).map_err(|p| p.message)),
+                json!({"stream": "update_spans", "probe": "A"}));
+        }
+    }
+    // B: UTF-8 indexes: a block marker occupies width("\u{fffc}") = 3 units, update_spans counts 1
+    {
+        let mut doc = AutoCommit::new_with_encoding(TextEncoding::Utf8CodeUnit).with_actor(ActorId::from(vec![1u8]));
+        let t = doc.put_object(ROOT, "t", ObjType::Text).unwrap();
+        let mut m: HashMap<String, hydrate::Value> = HashMap::new();
+        m.insert("type".into(), hydrate::Value::Scalar(ScalarValue::Str("p".into())));
+        let spans = vec![
+            Span::Block(hydrate::Map::from(m)),
+            Span::Text { text: "ab".into(), marks: Some(std::sync::Arc::new(MarkSet::from_iter(vec![("bold".to_string(), ScalarValue::Boolean(true))]))) },
+            Span::Text { text: "cd".into(), marks: None },
+        ];
+        let want = norm_spans(spans.clone());
+        let r = guard(|| doc.update_spans(&t, UpdateSpansConfig::default(), spans));
+        let got = doc.spans(&t).map(norm_spans).unwrap_or_default();
+        rep.count("update_spans:probe");
+        if !matches!(r, Ok(Ok(()))) || got != want {
+            rep.fail(&["C27"], "recon|update_spans|not-reached|utf8-with-blocks",
+                &format!("UTF-8 encoding, empty text; update_spans(t, default, [block p, \"ab\" bold, \"cd\"]) gives {:?} (length {}), expected {:?}", got, doc.length(&t), want),
+                json!({"stream": "update_spans", "probe": "B"}));
+        }
+    }
+}
+
+fn upd_spans_case(rng: &mut Rng, rep: &mut Report, pi: usize, enc: TextEncoding) {
+    let blocks = rng.chance(1, 2);
+    let mut doc = AutoCommit::new_with_encoding(enc).with_actor(gen::actor(rng, 0));
+    let t = doc.put_object(ROOT, "t", ObjType::Text).unwrap();
+    let first = gen_spans(rng, enc, blocks);
+    let second = gen_spans(rng, enc, blocks);
+    rep.count("update_spans:calls");
+    if blocks {
+        rep.count("update_spans:with_blocks");
+    }
+    for (round, spans) in [first, second].into_iter().enumerate() {
+        let want = norm_spans(spans.clone());
+        let replay = json!({"stream": "update_spans", "program": pi, "round": round, "encoding": enc_name(enc), "target": format!("{:?}", want), "before": format!("{:?}", doc.spans(&t).map(norm_spans).ok())});
+        // structural class of the input (known-finding signatures are keyed by it)
+        let before_spans: Vec<Span> = doc.spans(&t).map(|s| s.collect()).unwrap_or_default();
+        let multi_cp = enc != TextEncoding::GraphemeCluster
+            && before_spans.iter().any(|s| matches!(s, Span::Text { text, .. } if text.graphemes(true).any(|g| g.chars().count() > 1)));
+        let has_block = before_spans.iter().chain(spans.iter()).any(|s| matches!(s, Span::Block(_)));
+        let class = if multi_cp {
+            "old-text-has-multi-codepoint-grapheme".to_string()
+        } else if has_block && enc == TextEncoding::Utf8CodeUnit {
+            "utf8-with-blocks".to_string()
+        } else {
+            format!("other|{}|{}", enc_name(enc), if has_block { "blocks" } else { "text" })
+        };
+        rep.count(&format!("update_spans:class:{}", class.split('|').next().unwrap()));
+        match guard(|| doc.update_spans(&t, UpdateSpansConfig::default(), spans.clone())) {
+            Ok(Ok(())) => {}
+            Ok(Err(e)) => {
+                rep.fail(&["C27"], &format!("recon|update_spans|error|{}", class), &format!("update_spans failed: {}", e), replay);
+                return;
+            }
+            Err(p) => {
+                rep.fail(&["C27", "C37"], &format!("panic|recon|update_spans|{}", p.signature()), &format!("update_spans panicked: {} at {}", p.message, p.location), replay);
+                return;
+            }
+        }
+        doc.commit();
+        let got = match doc.spans(&t) {
+            Ok(s) => norm_spans(s),
+            Err(e) => {
+                rep.fail(&["C27"], "recon|update_spans|read-failed", &format!("{}", e), replay);
+                return;
+            }
+        };
+        if got != want {
+            rep.fail(&["C27"], &format!("recon|update_spans|not-reached|{}", class), &format!("after update_spans the spans are {:?}, expected {:?}", got, want), replay.clone());
+            return;
+        }
+        let bytes = doc.save();
+        match guard(|| load_plain(&bytes, enc).and_then(|l| l.spans(&t).map(norm_spans).map_err(|e| format!("{}", e)))) {
+            Ok(Ok(s)) if s == want => {}
+            Ok(Ok(s)) => rep.fail(&["C27", "C11"], "recon|update_spans|reload-differs", &format!("reloaded spans {:?}", s), replay.clone()),
+            Ok(Err(e)) => rep.fail(&["C27", "C11"], "recon|update_spans|reload-failed", &e, replay.clone()),
+            Err(p) => rep.fail(&["C27", "C11"], &format!("panic|recon|update_spans|reload|{}", p.signature()), &p.message, replay.clone()),
+        }
+        rep.case(Some(fnv(format!("{:?}{}", want, round).as_bytes())));
+    }
+}
+
 // ------------------------------------------------------------------ entry
 pub fn run(rng: &mut Rng, tier: &str, out: &str) -> Report {
     let thorough = tier == "thorough";
@@ -607,6 +1427,26 @@ pub fn run(rng: &mut Rng, tier: &str, out: &str) -> Report {
             mig_case(&mut r, &mut rep, &mut cw, &mut grp, pi, enc, thorough);
         }
         grp.flush(&mut cw);
+    }
+    // ---- C27
+    {
+        let mut r = rng.fork();
+        let n = if thorough { 1600 } else { 240 };
+        let mut cases: Vec<(String, serde_json::Value)> = vec![];
+        for pi in 0..n {
+            upd_text_case(&mut r, &mut rep, &mut cases, pi, encs[pi % 4]);
+            if cases.len() >= 120 {
+                cw.push_group(&[], std::mem::take(&mut cases));
+            }
+        }
+        cw.push_group(&[], std::mem::take(&mut cases));
+        spans_probes(&mut rep);
+        let n = if thorough { 600 } else { 120 };
+        for pi in 0..n {
+            upd_object_case(&mut r, &mut rep, pi, encs[pi % 4], thorough);
+            bulk_case(&mut r, &mut rep, pi, encs[pi % 4], thorough);
+            upd_spans_case(&mut r, &mut rep, pi, encs[pi % 4]);
+        }
     }
     cw.finish();
     rep
